@@ -129,7 +129,12 @@ def gen_fsm(rng):
                     steps.append(['ret'])
                     break
             runs.append(steps)
-        routines.append({'isgen': isgen, 'has_inval': has_inval, 'runs': runs})
+        # what the body does when it is finalised at a yield (stop / reset drop
+        # its generator): nothing, raise, or yield again - the routine's state
+        # machine must not depend on it
+        cleanup = rng.choice([None, None, None, 'raise', 'yield']) if isgen else None
+        routines.append({'isgen': isgen, 'has_inval': has_inval, 'runs': runs,
+                         'cleanup': cleanup})
     hist = []
     for _ in range(rng.choice([rng.randint(1, 6), rng.randint(4, 30)])):
         hist.append([rng.randrange(nr), rng.choice(OPS), rng.choice([None, 1, 'in', 4.5])])
@@ -294,7 +299,18 @@ class Real:
                 self.check_ctx(rid, 'after-nested-op')
                 self.log.append(('inop', rid, st[1], st[2], out))
             elif k == 'yield':
-                got = yield st[1]
+                try:
+                    got = yield st[1]
+                except GeneratorExit:
+                    c = self.case['routines'][rid].get('cleanup')
+                    self.acc.count('fsm_bodies_finalised_at_a_yield')
+                    if c == 'raise':
+                        self.acc.count('fsm_misbehaving_cleanups')
+                        raise self.excs['VfErr']('vf cleanup')
+                    if c == 'yield':
+                        self.acc.count('fsm_misbehaving_cleanups')
+                        yield 'again'
+                    raise
                 self.log.append(('recv', rid, got))
             elif k == 'ret':
                 return
@@ -373,6 +389,8 @@ def same_log(ml, rl):
 
 
 def run_fsm(spec, acc):
+    import sys
+    sys.unraisablehook = lambda *a: None    # finalisers of dropped generators may raise
     from sc3.base.main import main
     for i in iter_cases(spec):
         rng = case_rng(spec['seed'], 'C11', 'fsm', i)
